@@ -149,7 +149,24 @@ class ExprMixin:
             if isinstance(v, (dict, list)):
                 return ("constobj", owner.qual + "." + name)
             return const(v)
+        if self.functable(("functable", owner.qual, name)) is not None:
+            return ("functable", owner.qual, name)
         return ("classattr", owner.qual, name)
+
+    def functable(self, t):
+        """{constant key: FuncInfo} for a class attribute written as a dict display of constants to functions of that class
+        (a dispatch table), else None."""
+        owner = self.prog.classes.get(t[1])
+        expr = owner.attrs.get(t[2]) if owner is not None else None
+        if not isinstance(expr, ast.Dict) or not expr.keys:
+            return None
+        out = {}
+        for k, v in zip(expr.keys, expr.values):
+            okk, kv = self.prog.try_fold(k, owner.module, owner) if k is not None else (False, None)
+            if not okk or not isinstance(v, ast.Name) or v.id not in owner.methods:
+                return None
+            out[kv] = owner.methods[v.id]
+        return out
 
     def get_attr(self, base, attr, st, fx, node):
         key = (base, attr)
@@ -343,9 +360,37 @@ class ExprMixin:
                         return
                     yield "ok", ("sub", base, key), st
                     return
-            if base[0] == "const" and isinstance(base[1], (dict,)):
-                pass
+            if base[0] == "functable":
+                yield from self.functable_lookup(base, key, None, st, fx, node, subscript=True)
+                return
         yield "ok", ("sub", base, key), st
+
+    def functable_lookup(self, base, key, dflt, st, fx, node, subscript=False):
+        """Lookup in a dispatch table of functions: every entry (the key is then known to equal that entry's), or a miss."""
+        tab = self.functable(base)
+        if is_const(key):
+            if key[1] in tab:
+                yield "ok", ("func", tab[key[1]]), st
+            elif subscript:
+                yield "raise", self.exc(st, "KeyError", key), st
+            else:
+                yield "ok", dflt if dflt is not None else NONE, st
+            return
+        s_miss = st.fork()
+        self.emit(s_miss, fx, "CONSTMAP", node, obj=base, key=key, hit=False, how="functable")
+        for k in tab:
+            self.assume(("cmp", "==", key, const(k)), False, s_miss)
+        if subscript:
+            yield "raise", self.exc(s_miss, "KeyError", key), s_miss
+        else:
+            yield "ok", dflt if dflt is not None else NONE, s_miss
+        for k, f in tab.items():
+            s_k = st.fork()
+            self.emit(s_k, fx, "CONSTMAP", node, obj=base, key=key, hit=True, kval=k, val=f.qual, how="functable")
+            c = ("cmp", "==", key, const(k))
+            s_k.conds = s_k.conds + (Cond(c, True, fx.func.file, getattr(node, "lineno", 0), "%s == %r" % (show(key), k)),)
+            self.assume(c, True, s_k)
+            yield "ok", ("func", f), s_k
 
     # ---- operators -------------------------------------------------------
     def binop(self, opname, a, b):
@@ -523,10 +568,19 @@ class ExprMixin:
         """Comprehensions and generator expressions: iterables and element expressions are evaluated once for their events
         (registry reads, membership tests); the result is opaque."""
         saved = dict(st.env)
+        consumer = None
+        for c in ast.walk(fx.func.node):
+            if isinstance(c, ast.Call) and any(a is n for a in c.args) and isinstance(c.func, ast.Name):
+                consumer = c.func.id
+        seen_iters, seen_ifs = [], []
 
         def gens(i, s):
             if i == len(n.generators):
-                yield from self.ev_list(list(elts), s, fx)
+                for r3, ts3, s3 in self.ev_list(list(elts), s, fx):
+                    if r3 != "raise":
+                        self.emit(s3, fx, "COMP", n, ckind=type(n).__name__, iters=tuple(seen_iters), ifs=tuple(seen_ifs), elts=tuple(ts3),
+                                  consumer=consumer)
+                    yield r3, ts3, s3
                 return
             g = n.generators[i]
             for r, it, s1 in self.ev(g.iter, s, fx):
@@ -539,6 +593,10 @@ class ExprMixin:
                     if r2 == "raise":
                         yield r2, conds, s2
                     else:
+                        del seen_iters[i:]
+                        del seen_ifs[i:]
+                        seen_iters.append(it)
+                        seen_ifs.append(tuple(conds))
                         yield from gens(i + 1, s2)
         for r, ts, s in gens(0, st):
             for k in list(s.env):
